@@ -34,6 +34,21 @@ CHECKS.append({
             "compared with astropy's own function applied to the model's multiset, not re-derived.",
 })
 
+CHECKS.append({
+    "property_id": "C18",
+    "design_ref": "DESIGN.md 5 (C18)",
+    "technique": "Coq proof over validation steps regenerated from check_input_data / BaseFitter.__init__ / BaseRenderer.__init__ by an ast "
+                 "translator (ordered first-match semantics, tuple-lexicographic vs per-axis comparison made explicit) + kernel-checked vm_compute "
+                 "correspondence with the real constructors",
+    "text": "Eight theorems (Props/C18.v, closed under the global context) over ALL shapes and fault combinations: rms-shape, negative-rms, "
+            "PSF-larger-on-either-axis and mask-shape faults raise the documented exception in program order; consistent inputs are accepted; the "
+            "renderer rejects iff an axis is smaller than the PSF; stored arrays are the pointwise float32 image of the same-named argument, the "
+            "mask is stored inverted.  The steps and the kind of each comparison are re-extracted on every run (fail-closed), and the outcome enum "
+            "of the real constructors on the property's sweep is proved equal to the model's by vm_compute.",
+    "note": "Trusted: Coq kernel + vm_compute; translator unit InputChecks; CPython tuple comparison modelled by lex_lt; float32 rounding abstract "
+            "(bit-exact storage is checked on the implementation side, not proved); only 2-D shapes are covered by the theorems.",
+})
+
 _PENDING = "check not built yet in this session (build order in DESIGN.md section 9); will be claimed once its Coq model, theorems and tie exist"
 NOT_APPLICABLE = [
     {"property_id": "C%02d" % i, "reason": _PENDING}
